@@ -74,17 +74,10 @@ func c12Run(c c12Case) (err error) {
 	if !utf8.ValidString(pw) {
 		// what one "character" of ill-formed text is, is not documented (Go's
 		// strings.Split makes every stray byte one, other conventions keep a
-		// truncated sequence together): only the number and types of the
-		// tokens are compared, the cuts are not
+		// truncated sequence together), and with it how many tokens a
+		// character-kind index yields: for such strings only "consecutive
+		// slices" (above), the entropy and "no panic" are judged
 		ev.Class("ill_formed_text_cuts_not_judged")
-		if len(got) != len(want) {
-			return fmt.Errorf("Tokenize(%q, %v) = %d tokens, the index specifies %d", pw, c.Index, len(got), len(want))
-		}
-		for i := range got {
-			if got[i].T != want[i].T {
-				return fmt.Errorf("Tokenize(%q, %v): token %d has type %d, the index specifies %d", pw, c.Index, i, got[i].T, want[i].T)
-			}
-		}
 	} else if tokKey(got) != tokKey(want) {
 		return fmt.Errorf("Tokenize(%q, %v) = %q, the index specifies %q", pw, c.Index, got, want)
 	}
